@@ -7,7 +7,8 @@
    fulfilment).  Steps of the model that have no trace line of their own (a fulfiller running a callback that neither touches a
    counter nor submits; Submit + Call on the library's inline executor) are reported by the harness as separate event lines
    (`fire`, `submit … e0`, `call`) right before the resumption they explain.  An executor swap made behind the coroutine's back
-   is inferred from the executor the coroutine reports after resumption (`envSwap` inserted in front of `resume`). -/
+   (a Task that moved, a Schedule()-headed Task) is inferred from the executor the coroutine reports after resumption (`envSwap`
+   inserted in front of `resume`). -/
 import YaclibModel.Model.Coro
 import Driver.Trace
 
@@ -74,7 +75,7 @@ structure DState where
   ncells : Nat
 
 def isShared (c : CellH) : Bool := c.kind = "s" || c.kind = "S"
-def isLazy (c : CellH) : Bool := c.kind = "t" || c.kind = "T"
+def isLazy (c : CellH) : Bool := c.kind = "t" || c.kind = "T" || c.kind = "k" || c.kind = "K"
 
 def initD (hdr : List String) : Option DState := do
   let cs ← hdrGet hdr "cells"
@@ -153,6 +154,7 @@ def ruleOf (s : State) (l : Label) : String :=
   | .resume _ _ => (match s.pc with
       | .wake .inl => "resume.inl" | .wake (.cell _) => "resume.cell" | .wake (.exec _) => "resume.exec" | _ => "resume.?")
   | .current _ => "current"
+  | .tdtor _ => "tdtor"
   | .ldtor => if s.pc = .done then "ldtor.destroy" else "ldtor.leave"
   | .ret => "ret"
   | .publish _ => if s.dropped then "publish.dropped" else "publish"
@@ -213,7 +215,8 @@ def stepD (d : DState) (ts : List String) : Option (Option (DState × String)) :
   | [t, "A", obj, "xchg", _, "result", "->", _] =>
       match widOf obj, pidOf t with
       | some j, some _ => some (allTake d (.pXchg j) j)
-      | _, _ => none                      -- the harness' clean-up (a Task that was only Await()ed is cancelled at the end)
+      | some _, none => some none         -- only the producer of a cell exchanges its word (a cancelling ~Task would: D13)
+      | none, _ => none
   | [t, "A", obj, "load", _, "-", "->", x] =>
       match widOf obj, cidOf t with
       | some j, some i =>
@@ -336,12 +339,12 @@ def stepD (d : DState) (ts : List String) : Option (Option (DState × String)) :
                     if s3.exec = ex then some (s2.exec, s3, rs1 ++ rs2 ++ rs3) else none
               match r with
               | none => some none
-              | some (oldExec, s3, rs) =>
-                  let d1 : DState := match ctx with
-                    | .cell j => { d with comps := others d i (.envSwap j oldExec) }
-                    | _ => d
-                  some (some ({ d1 with comps := setAt d1.comps i s3 }, joinRules rs))
+              | some (_, s3, rs) => some (some ({ d with comps := setAt d.comps i s3 }, joinRules rs))
       | _, _, _, _, _ => some none
+  | [t, "E", "tdtor", j] =>
+      match cidOf t, j.toNat? with
+      | some i, some j => own i fun s => apSeq s [.tdtor j]
+      | _, _ => some none
   | [t, "E", "current", k, e] =>
       match cidOf t, eidOf e with
       | some i, some x => own i fun s => if k.toNat? = some s.k then apSeq s [.current x] else none
